@@ -35,7 +35,7 @@ PLAN = {
                   model=[(2, "core")], deep=[], d2cap=120, sim=(12, 120), asan=False, procs=8, chunk=700),
     "thorough": dict(types=["SO2d", "SO3d", "SE2d", "SE3d", "C1f", "Gald", "SEK3_2d", "SEK3_3d", "B3d", "B5d", "BNd", "SE3f", "Galf", "SE2f"],
                      model=[(2, "full")], deep=[("SO2", 3, "core"), ("C1", 3, "core"), ("SO3", 3, "core")],
-                     d2cap=6000, sim=(120, 3000), asan=True, procs=12, chunk=2500),
+                     d2cap=4000, sim=(60, 2000), asan=True, procs=12, chunk=2500),
 }
 SPEC_MUTANTS = [("alias", "SE3"), ("short", "SE2"), ("galso3", "Gal"), ("dofpsum", "B3")]
 
@@ -82,25 +82,51 @@ def model_ok(r, what, simulate=False):
     return True
 
 
-def read_histories(path):
-    geom, hs = None, []
+def read_histories(path, cap=None, rng=None):
+    """geometry record and histories emitted by the model; with cap: a uniform sample of `cap` lines (reservoir, one pass)"""
+    geom, keep, n = None, [], 0
     if not os.path.exists(path):
-        return geom, hs
+        return geom, []
     with open(path) as fh:
         for ln in fh:
-            ln = ln.strip()
-            if not ln:
+            if ln.startswith("{"):
+                geom = geom or json.loads(ln)
                 continue
-            v = json.loads(ln)
-            if isinstance(v, dict):
-                geom = geom or v
-            elif v:
-                hs.append(v)
-    return geom, hs
+            if not ln.startswith("[{"):
+                continue
+            n += 1
+            if cap is None or len(keep) < cap:
+                keep.append(ln)
+            else:
+                j = rng.randrange(n)
+                if j < cap:
+                    keep[j] = ln
+    return geom, [json.loads(ln) for ln in keep]
 
 
 def step_line(s):
     return "S %s %s %s %s %s %s %s %s %s" % (s["op"], s["d"]["k"], s["d"]["v"], s["s"]["k"], s["s"]["v"], s["o"]["k"], s["o"]["v"], s["i"], s["x"])
+
+
+def parse_step(ln):
+    t = ln.split()
+    return {"op": t[1], "d": {"k": t[2], "v": t[3]}, "s": {"k": t[4], "v": t[5]}, "o": {"k": t[6], "v": t[7]}, "i": t[8], "x": t[9]}
+
+
+def steps_of(meta, hid):
+    """the steps of history `hid` (kept on disk in the program file, not in memory)"""
+    if "hist" in meta:
+        return meta["hist"].get(hid)
+    out, on = [], False
+    with open(meta["prog"]) as fh:
+        for ln in fh:
+            if ln.startswith("H "):
+                if on:
+                    break
+                on = int(ln.split()[1]) == hid
+            elif on and ln.startswith("S "):
+                out.append(parse_step(ln))
+    return out
 
 
 def write_program(path, geom, hist_list):
@@ -129,7 +155,7 @@ def harvest_crash(oc, out, meta):
     cr = json.loads(lines[-1])
     with open(out, "w") as fh:
         fh.write("\n".join(lines[:-1]) + ("\n" if len(lines) > 1 else ""))
-    steps = meta["hist"].get(cr["h"]) or []
+    steps = steps_of(meta, cr["h"]) or []
     st = steps[cr["k"] - 1] if 0 < cr["k"] <= len(steps) else None
     b = {"clause": "C16.same.crash", "op": st["op"] if st else "?", "stratum": (st or {}).get("i", "-"), "g": meta["type"],
          "sc": TYPES[meta["type"]][1][0], "type": meta["type"], "err": f"signal {cr['sig']} in step {cr['k']} of history {cr['h']}",
@@ -195,7 +221,7 @@ def validate(oc, traces, chunk, workdir, procs):
                     raise V.ToolFailure(f"harness/trace problem: {b2} in {cp}")
                 hid = ev.get("h")
                 payload = {"family": "mapmem", "type": meta["type"], "seed": meta["seed"], "hid": hid, "geom": meta["geom"],
-                           "steps": meta["hist"].get(hid), "line": first + b["line"],
+                           "steps": steps_of(meta, hid), "line": first + b["line"],
                            "event": {k: V.dequad(x) for k, x in ev.items()}}
                 oc.bad_step(b2, payload)
             os.remove(cp)
@@ -230,7 +256,7 @@ def sanitizer_pass(oc, names, progs, workdir, seed):
             # the harness names every step on stderr before executing it
             marks = re.findall(r"^@ (\d+) (\d+)$", report, flags=re.M)
             hid, k = (int(marks[-1][0]), int(marks[-1][1])) if marks else (0, 1)
-            steps = meta["hist"].get(hid) or []
+            steps = steps_of(meta, hid) or []
             st = steps[k - 1] if 0 < k <= len(steps) else None
             report = "\n".join(ln for ln in report.splitlines() if not re.match(r"^@ \d+ \d+$", ln))
             first = next((ln for ln in report.splitlines() if "ERROR: AddressSanitizer" in ln or "runtime error:" in ln), "sanitizer report")
@@ -337,28 +363,24 @@ def _check(oc, prop, tier, seed, replay, workdir):
     progs = {}
     for name, exe in zip(names, exes):
         mt = TYPES[name][2]
+        r2 = random.Random(seed * 1000003 + TYPES[name][0] * 31 + (7 if TYPES[name][1] == "float" else 0))
         geom, h1 = read_histories(results[("d1", mt)])
-        _, h2 = read_histories(results[("d2", mt)])
-        _, h3 = read_histories(results[("sim", mt)])
+        _, h2 = read_histories(results[("d2", mt)], plan["d2cap"], r2)
+        _, h3 = read_histories(results[("sim", mt)], plan["sim"][1], r2)
         if geom is None or not h1:
             raise V.ToolFailure(f"generator produced no histories for {mt}")
-        r2 = random.Random(seed * 1000003 + TYPES[name][0] * 31 + (7 if TYPES[name][1] == "float" else 0))
-        if len(h2) > plan["d2cap"]:
-            h2 = r2.sample(h2, plan["d2cap"])
-        if len(h3) > plan["sim"][1]:
-            h3 = r2.sample(h3, plan["sim"][1])
-        allh = h1 + h2 + h3
-        hist = {i: h for i, h in enumerate(allh)}
         prog = os.path.join(workdir, f"{name}.prog")
-        write_program(prog, geom, sorted(hist.items()))
+        write_program(prog, geom, list(enumerate(h1 + h2 + h3)))
         out = os.path.join(workdir, f"{name}.ndjson")
-        meta = {"type": name, "hist": hist, "geom": geom, "seed": seed}
+        meta = {"type": name, "prog": prog, "geom": geom, "seed": seed}
         progs[name] = (prog, meta)
+        nh = (len(h1), len(h2), len(h3))
+        del h1, h2, h3
         r = run_harness(exe, prog, out, seed)
         if r.returncode != 0 and not (r.returncode == 4 and harvest_crash(oc, out, meta)):
             raise V.ToolFailure(f"harness {name} failed rc={r.returncode}: {r.stderr[-1000:]}")
         traces.append((out, meta))
-        extra["histories_replayed"][name] = {"depth1": len(h1), "depth2": len(h2), "depth3": len(h3)}
+        extra["histories_replayed"][name] = {"depth1": nh[0], "depth2": nh[1], "depth3": nh[2]}
 
     # ---- 4: trace validation
     validate(oc, traces, plan["chunk"], workdir, plan["procs"])
